@@ -47,6 +47,7 @@ class World:
         self.dll = dll
         self.bus = Bus(self.sim, random.Random(seed ^ 0x9E3779B9), latency, zero_prob)
         self.bus.ts_mode = random.Random(seed ^ 0x7157).choice(['epoch'] * 6 + ['zero', 'zero', 'relative', 'relative'])
+        self.bus.shared_msg = random.Random(seed ^ 0x5AED).random() < 0.3
         self.stacks = []
         self.bystander = None
         self.bystander_mode = os.environ.get('VERIF_BYSTANDER') or random.Random(seed ^ 0xB157).choice(['before', 'before', 'after', 'after', 'none', 'none', 'none'])
